@@ -203,3 +203,27 @@ Print Assumptions C05_calver_parse_eq.
 Theorem C05_calver_format_gen : ltac:(let t := type of calver_format_gen in exact t).
 Proof. exact calver_format_gen. Qed.
 Print Assumptions C05_calver_format_gen.
+
+(* ---- Proofs.SemverTagE2E ---- *)
+From Coq Require Import List Bool NArith ZArith Arith.
+From BV Require Import Lib.PyStr Lib.Decimal Lib.Calendar Model.V2 Model.Pep440 Model.Cli Model.Lexid Proofs.DottedFacts Proofs.SemverTagE2E.
+Import ListNotations.
+Theorem C05_svt_parse_eq : forall (today : Z) (a b c : N) (t : option (ptag * N)), parse_version_info today (svt a b c t) P = POk (svt_vinfo today (Z.of_N a) (Z.of_N b) (Z.of_N c) t).
+Proof. exact svt_parse_eq. Qed.
+Print Assumptions C05_svt_parse_eq.
+
+Theorem C05_svt_format : forall (today : Z) (a b c : N) (t : option (ptag * N)), format_version (svt_vinfo today (Z.of_N a) (Z.of_N b) (Z.of_N c) t) P = Some (svt a b c t).
+Proof. exact svt_format. Qed.
+Print Assumptions C05_svt_format.
+
+Theorem C05_svt_incr : forall (today date : Z) (fl : flags) (ft : option (option ptag)) (a b c : N) (t : option (ptag * N)), f_tag fl = option_map ltext ft -> incr today (svt a b c t) P fl date = incr_spec fl ft a b c t.
+Proof. exact svt_incr. Qed.
+Print Assumptions C05_svt_incr.
+
+Theorem C05_svt_cmd_tag_tagnum : forall (today : Z) (fl : flags) (p : ptag) (a b c : N) (t : option (ptag * N)) (d : option Z), f_tag fl = Some (ltext (Some p)) -> f_tag_num fl = true -> part_flag fl = false -> date_ok fl d -> let new := svt a b c (Some (p, if eqb_otag (Some p) (otag t) then (tnum t + 1)%N else 0%N)) in test_cmd_v2 today (svt a b c t) P fl (option_map Some d) None = (if eqb_otag (Some p) (otag t) || (trank (otag t) <? trank (Some p))%N then Exit0 new (to_pep440 new) else ExitErr).
+Proof. exact svt_cmd_tag_tagnum. Qed.
+Print Assumptions C05_svt_cmd_tag_tagnum.
+
+Theorem C05_valid_tag_abstract : forall fl : flags, validate_release_tag (f_tag fl) = true -> exists ft : option (option ptag), f_tag fl = option_map ltext ft.
+Proof. exact valid_tag_abstract. Qed.
+Print Assumptions C05_valid_tag_abstract.
